@@ -15,7 +15,8 @@ EXPLANATION = (
     "relay buffer is allocated per copy_half call. Does not decide equality of delivered streams over all segmentations."
     " WIRE the sets of socket-operation layouts (field widths, NUL-terminated / length-prefixed strings, per successful path) written by the SOCKS4 request, SOCKS4 reply and SOCKS5 reply encoders equal those read by the project's own decoders; BUF every store into GlobalState.io_params is dominated by the non-zero edge of a test of buffer_size."
     " DELIM: a delimiter-terminated handshake field is accepted only behind the edge on which the delimiter was seen (C12's S2); WIRE also follows fields assembled in a buffer (REQ5 negotiation+request compared exactly)."
-    ' HEAD-END: in the HTTP codec a function that reads lines in a loop returns success only over the edge on which the line just read was found empty (a bounded loop that runs out leaves the rest of the head for the tunnel).')
+    ' HEAD-END: in the HTTP codec a function that reads lines in a loop returns success only over the edge on which the line just read was found empty (a bounded loop that runs out leaves the rest of the head for the tunnel).'
+    ' BUF-ONCE: a buffering reader over a stream (BufReader / BufStream / FramedRead / Framed / ReaderStream) is constructed only in make_buffered_stream; any other one keeps a read-ahead of its own that never reaches the tunnel.')
 RULE_TEXT = "instances = write sites, writer functions, unwrap sites, relay arms, statics; non-trivial = those needing a dataflow/dominance argument"
 TRUSTED = ["tokio BufReader/BufWriter/read/write_all contracts", "kernel splice semantics", "TLS record handling in rustls"]
 NOT_DECIDED = ["equality of the delivered stream over all segmentations and payloads", "TLS record handling", "kernel splice semantics"]
@@ -58,6 +59,8 @@ def rule_head_end(chk, prog, rule="HEAD-END"):
                         d = f.def_call(op_base(x))
                         if d is not None and re.search(r"::len$", d.path or "") and d.args and op_base(d.args[0]) in tracked:
                             edges.append((sb, tb))
+            from ..flow import flag_edges
+            edges = edges + flag_edges(f, edges)      # `while !end_of_head { .. if line.is_empty() { end_of_head = true } .. }`
             oks = [b for b in result_blocks(f, "Ok") if b in f.reach_from([c.bb])]
             bad = [b for b in oks if not any(edge_dominates(f, sb, tb, b) for (sb, tb) in edges)]
             ok = bool(edges) and bool(oks) and not bad
@@ -178,6 +181,7 @@ def run(chk, prog):
     from . import c12 as _c12
     _c12.rule_s2(chk, prog, "DELIM")
     rule_head_end(chk, prog)
+    shared.rule_buf_once(chk, prog)
 
     # WIRE: encoder/decoder layout agreement of the SOCKS messages
     shared.rule_wire(chk, prog)
